@@ -182,11 +182,22 @@ func (g *generator) genSyntax() (string, error) {
 			if !ok || !strings.HasPrefix(sel.Sel.Name, "check") || len(ce.Args) == 0 {
 				return true
 			}
-			key := ""
+			// the workflow key handed to the check: the last string-literal argument that is a key of the
+			// availability table or "" ; "$param" when the key is passed on from the enclosing function
+			key := "-"
 			for _, a := range ce.Args[1:] {
 				if bl, ok := a.(*ast.BasicLit); ok && bl.Kind == token.STRING {
-					if s, err := strconv.Unquote(bl.Value); err == nil && (strings.Contains(s, ".") || s == "" || s == "env" || s == "concurrency" || s == "run-name") {
+					if s, err := strconv.Unquote(bl.Value); err == nil && (strings.Contains(s, ".") || s == "" || s == "env" || s == "concurrency" || s == "run-name") && !strings.Contains(s, " ") {
 						key = s
+					}
+				} else if id, ok := a.(*ast.Ident); ok && strings.Contains(strings.ToLower(id.Name), "workflowkey") {
+					key = "$" + id.Name
+				} else if be, ok := a.(*ast.BinaryExpr); ok {
+					if id, ok := be.X.(*ast.Ident); ok && strings.Contains(strings.ToLower(id.Name), "workflowkey") {
+						if bl, ok := be.Y.(*ast.BasicLit); ok {
+							suffix, _ := strconv.Unquote(bl.Value)
+							key = "$" + id.Name + "+" + suffix
+						}
 					}
 				}
 			}
@@ -257,6 +268,29 @@ func (g *generator) genSyntax() (string, error) {
 						return "?"
 					}
 					mappings = append(mappings, mapping{fd.Name.Name, sec, txt(ce.Args[2]), txt(ce.Args[3])})
+				}
+			}
+			// single-key mappings: `if kv.id != "run" { p.unexpectedKey(…); continue }`
+			if is, ok := n.(*ast.IfStmt); ok {
+				if be, ok := is.Cond.(*ast.BinaryExpr); ok && be.Op == token.NEQ {
+					if sel, ok := be.X.(*ast.SelectorExpr); ok && sel.Sel.Name == "id" {
+						if bl, ok := be.Y.(*ast.BasicLit); ok && bl.Kind == token.STRING {
+							k, _ := strconv.Unquote(bl.Value)
+							cases = append(cases, pcase{fd.Name.Name, k, []string{"$single-key"}, false})
+							reports := false
+							ast.Inspect(is.Body, func(m ast.Node) bool {
+								if ce, ok := m.(*ast.CallExpr); ok {
+									if cs, ok := ce.Fun.(*ast.SelectorExpr); ok && cs.Sel.Name == "unexpectedKey" {
+										reports = true
+									}
+								}
+								return true
+							})
+							if reports {
+								cases = append(cases, pcase{fd.Name.Name, "", []string{"!unexpectedKey"}, true})
+							}
+						}
+					}
 				}
 			}
 			sw, ok := n.(*ast.SwitchStmt)
